@@ -1,4 +1,4 @@
-import PPModel.Mod.Sugar
+import PPModel.Mod.TermCheck
 import PPProofs.Lemmas.ParseAdv
 import PPProofs.Lemmas.ParseBound
 /-
@@ -370,35 +370,7 @@ theorem parseStep_sadv (g : Grammar) (s : List Char) {p : P} {id : Nat} {nd : No
 
 /-! ### the executable test -/
 
-/-- `consumes g k i`: element `i` of the table cannot match the empty string, seen by a syntactic analysis of depth `k`:
-    a token leaf (Literal, Word, CharsNotIn, non-empty CaselessLiteral / Keyword); an `And` with such an operand (not an
-    `_ErrorStop`); a `MatchFirst` / `Or` all of whose alternatives are such; `OneOrMore` / Group / Suppress / Combine /
-    Located / plain enhancement / bound Forward of such.
-    (Sufficient, not necessary: `SkipTo`, lookaheads, anchors, `Opt`, `ZeroOrMore` … are answered `false`.) -/
-def consumes (g : Grammar) : Nat → Nat → Bool
-  | 0, _ => false
-  | k+1, i =>
-    match g[i]? with
-    | none => false
-    | some nd =>
-      match nd.kind with
-      | .lit _ => true
-      | .lit1 _ => true
-      | .word _ _ _ _ _ _ _ => true
-      | .charsNotIn _ _ _ => true
-      | .caselessLit mU _ => !mU.isEmpty
-      | .keyword m _ _ => !m.isEmpty
-      | .and es => es.any (consumes g k)
-      | .matchFirst es => es.all (consumes g k)
-      | .or es => es.all (consumes g k)
-      | .many x _ true => consumes g k x
-      | .located e => consumes g k e
-      | .group e => consumes g k e
-      | .suppress e => consumes g k e
-      | .combine e _ => consumes g k e
-      | .enhance e => consumes g k e
-      | .forward (some e) => consumes g k e
-      | _ => false
+/-! the test itself (`consumes`) is defined in `PPModel/Mod/TermCheck.lean` (core Lean: the driver evaluates it) -/
 
 theorem consumes_not_stop (g : Grammar) (k x : Nat) (h : consumes g k x = true) :
     (match g[x]? with
